@@ -125,9 +125,9 @@ CLAIMED.update({
 
 CLAIMED.update({
  "C18": dict(category="proof",
-   text="Handler-quantity helpers of v2/priority/utils and v1 priority, relative to what the (arbitrary, possibly impure) divider answered during the call: a call hook on every call through a Divider value records the priorities slice, the dividend and whether every listed priority got >= 1 unit (ghost history gDivPri/gDivQ/gDivFilled). Proved: isNonFatalConfig returns true exactly when it divided `quantity` among every combination, in order, and each division was filled (false: the last division made was of `quantity` among the next combination and was not filled); isSuitableConfig true implies the same filledness facts (suitable => non-fatal, per call); IsNonFatalConfig/IsSuitableConfig return exactly that predicate evaluated on genCombinations(createSortedCopy(priorities)); each PickUpMin/Max function evaluates the predicate on 1,2,... (resp. max,max-1,...) and returns the first quantity for which it held - hence the smallest/largest in [1,max] - or 0 after all max evaluations were false (ghost history gNFq/gNFr, gSUq/gSUr of predicate evaluations). NOT decided: that genCombinations enumerates exactly the non-empty subsets (trusted, no contract), monotonicity in the percentage limit (floating point), and 'non-fatal => accepted by New' across the two packages (it needs a deterministic divider; the shared filledness test IsDistributionFilledFor is the same function in both, and its defect was found and repaired through C15).",
+   text="Handler-quantity helpers of v2/priority/utils and v1 priority, relative to what the (arbitrary, possibly impure) divider answered during the call. (1) Subset enumeration: genCombinations / genPriorityCombinations are proved (nested loop invariants, pow2m1(n)=2^n-1) to return pow2m1(n) slices where, for every t<n, positions pow2m1(t)..2*pow2m1(t)-1 are copies of positions 0..pow2m1(t)-1 each extended by priorities[t] and position 2*pow2m1(t) is the singleton [priorities[t]] - by induction on t exactly every non-empty subset once, each in the order of the priorities slice; createSortedCopy is proved to return a fresh high-to-low sorted permutation (SortPriorities trusted). (2) Predicates: a call hook on every call through a Divider value records the priorities slice, the dividend and whether every listed priority got >= 1 unit; isNonFatalConfig returns true exactly when it divided `quantity` among every combination, in order, and each division was filled (false: the last division made was of `quantity` among the next combination and was not filled); isSuitableConfig true implies the same filledness facts (suitable => non-fatal); IsNonFatalConfig / IsSuitableConfig return exactly that predicate evaluated on the subset structure of the sorted copy of their argument. (3) Pick-up: each PickUpMin/Max function evaluates the predicate - always on that same subset structure - on 1,2,... (resp. max,max-1,...) and returns the first quantity for which it held, hence the smallest/largest in [1,max], or 0 after all max evaluations were false. NOT decided: monotonicity in the percentage limit (floating point), and 'non-fatal => accepted by New' across the two packages (it needs a deterministic divider; the shared filledness test IsDistributionFilledFor is the same function in both, and its defect was found and repaired through C15).",
    design_ref="DESIGN.md §7 C18, §12.6",
-   note=TB + "partial: genCombinations, createSortedCopy and isDistributionSuitable are trusted without contract; results are relative to the divider's answers during the call (no determinism assumption).",
+   note=TB + "assumed: SortPriorities (sort.SliceStable) contract, sign of the float capacity hint calcCombinationsQuantity, isDistributionSuitable (no contract), dividers do not write their priorities argument, two induction facts about pow2m1 (monotone, non-negative) stated as axioms; the step from the positional structure to 'every non-empty subset' is an induction argued in DESIGN.md, not machine checked; results are relative to the divider's answers during the call (no determinism assumption).",
    technique=GH2),
 })
 
